@@ -53,6 +53,14 @@ def run(chk: Check) -> None:
     acts = [n for n in ecfg.nodes if any(last_name(c) in ('create_port_namespace', 'absorb') for c in _calls(n))]
     ok = ok and all(ecfg.must_pass(ecfg.entry, [a], lambda x: x in rej2, edge_ok=no_exc) for a in acts)
     chk.ob('DOM-mutually-exclusive', ep, ok, 'expose_* rejects the combination before creating the target namespace', kind='expose-rejects-first')
+    # the two rejections are siblings: what absorb() refuses, _expose_ports must already have refused (else the refused call has created the target namespace)
+    if rej and rej2:
+        a_at = chk.ctx.facts.analyse(ab).cond_atoms(rej[0].ast.test, True)
+        e_at = chk.ctx.facts.analyse(ep).cond_atoms(rej2[0].ast.test, True)
+        weaker = {('notnone', a[1]) if a[0] == 'T' else a for a in e_at}
+        chk.ob('DOM-mutually-exclusive', ep, e_at <= a_at | {a for a in e_at if a[0] == 'notnone'} and e_at == weaker,
+               f'_expose_ports rejects under the same condition as absorb (absorb: {sorted(a_at)}; _expose_ports: {sorted(e_at)}): a truthiness test on one of the rule sets lets exclude=() / '
+               'include=() through to absorb, which then raises after the namespace was created', node=rej2[0].ast, kind='rejection-tests-agree')
 
     # 2. copies only
     stores = [n for n in cfg.nodes if n.kind == 'stmt' and isinstance(n.ast, ast.Assign) and any(isinstance(t, ast.Subscript) and norm(t.value) == 'self' for t in n.ast.targets)]
